@@ -94,13 +94,15 @@ Fixpoint regexp_body (fuel : nat) (buf : bytes) (p : nat) : lstate * bytes * nat
            else regexp_body f (buf ++ encode_rune c) p1
   end.
 
-(* one iteration of the for-loop of getNextToken, after ch := s.read() gave (ch, p1) from position p;
+(* (the state test is written first in every conjunction - the Go conditions are pure, the order of the BRANCHES is the Go order -
+   so that a known state prunes the chain by computation)
+   one iteration of the for-loop of getNextToken, after ch := s.read() gave (ch, p1) from position p;
    [p] is the position to return to on unread_last *)
 Definition lex_step (st : lstate) (buf : bytes) (p : nat) : outcome :=
   let '(ch, p1) := rd p in
   let is st' := lstate_eqb st st' in
   let w := buf ++ encode_rune ch in
-  if (ch =? 0) && is SSTART then Stop SEND buf p1
+  if is SSTART && (ch =? 0) then Stop SEND buf p1
   else if ch =? 0 then Stop st buf p                        (* unread_last (no effect at the real end) *)
   else if is SCOMMENT then (if ch =? 10 then Stop st buf p else Cont st w p1)
   else if is SBLOCKCOMMENT then Cont (if ch =? 41 then SBLOCKCOMMENTSTARTEND else SBLOCKCOMMENT) w p1
@@ -108,33 +110,33 @@ Definition lex_step (st : lstate) (buf : bytes) (p : nat) : outcome :=
   else if is SBLOCKCOMMENTSTARTEND && (ch =? 41) then Cont SBLOCKCOMMENTSTARTEND w p1
   else if is SBLOCKCOMMENTENDEND && (ch =? 45) then Stop SBLOCKCOMMENTFINAL w p1
   else if is SBLOCKCOMMENTENDEND || is SBLOCKCOMMENTSTARTEND then Cont (if ch =? 41 then SBLOCKCOMMENTSTARTEND else SBLOCKCOMMENT) w p1
-  else if (ch =? 92) && is SSTRING_DOUBLE then Cont SSTRING_D_ESCAPE buf p1
+  else if is SSTRING_DOUBLE && (ch =? 92) then Cont SSTRING_D_ESCAPE buf p1
   else if is SSTRING_DOUBLE then (if ch =? 34 then Stop SSTRING_END buf p1 else Cont st w p1)
-  else if (ch =? 92) && is SSTRING_SINGLE then Cont SSTRING_S_ESCAPE buf p1
+  else if is SSTRING_SINGLE && (ch =? 92) then Cont SSTRING_S_ESCAPE buf p1
   else if is SSTRING_SINGLE then (if ch =? 39 then Stop SSTRING_END buf p1 else Cont st w p1)
-  else if (ch =? 40) && is SCOMMENTSTART then Cont SBLOCKCOMMENT w p1
+  else if is SCOMMENTSTART && (ch =? 40) then Cont SBLOCKCOMMENT w p1
   else if is SCOMMENTSTART then (if ch =? 10 then Stop st buf p else Cont SCOMMENT w p1)
-  else if (ch =? 40) && is SSTART then Stop SOPENPAREN w p1
-  else if (ch =? 41) && is SSTART then Stop SCLOSEPAREN w p1
-  else if (ch =? 123) && is SSTART then Stop SOPENCURLY w p1
-  else if (ch =? 125) && is SSTART then Stop SCLOSECURLY w p1
-  else if (ch =? 44) && is SSTART then Stop SCOMMA w p1
-  else if (ch =? 33) && is SSTART then Cont SEXCL w p1
-  else if (ch =? 61) && is SEXCL then Stop SNEQUAL w p1
-  else if (ch =? 61) && is SSTART then Cont SEQUAL_1 w p1
-  else if (ch =? 61) && is SEQUAL_1 then Stop SDEQUAL w p1
-  else if (ch =? 61) && is SCOLON then Stop SCOLONEQ w p1
-  else if (ch =? 61) && is SOPERATORSTART then Stop SOPERATOR w p1
-  else if (ch =? 58) && is SSTART then Cont SCOLON w p1
-  else if (ch =? 45) && (is SSTART || is SDASH || is SCOMMENTSTART) then
+  else if is SSTART && (ch =? 40) then Stop SOPENPAREN w p1
+  else if is SSTART && (ch =? 41) then Stop SCLOSEPAREN w p1
+  else if is SSTART && (ch =? 123) then Stop SOPENCURLY w p1
+  else if is SSTART && (ch =? 125) then Stop SCLOSECURLY w p1
+  else if is SSTART && (ch =? 44) then Stop SCOMMA w p1
+  else if is SSTART && (ch =? 33) then Cont SEXCL w p1
+  else if is SEXCL && (ch =? 61) then Stop SNEQUAL w p1
+  else if is SSTART && (ch =? 61) then Cont SEQUAL_1 w p1
+  else if is SEQUAL_1 && (ch =? 61) then Stop SDEQUAL w p1
+  else if is SCOLON && (ch =? 61) then Stop SCOLONEQ w p1
+  else if is SOPERATORSTART && (ch =? 61) then Stop SOPERATOR w p1
+  else if is SSTART && (ch =? 58) then Cont SCOLON w p1
+  else if (is SSTART || is SDASH || is SCOMMENTSTART) && (ch =? 45) then
     Cont (if is SSTART then SDASH else if is SDASH then SCOMMENTSTART else SCOMMENT) w p1
   else if is SSTART && ((ch =? 43) || (ch =? 37) || (ch =? 42) || (ch =? 47)) then Stop SOPERATOR w p1
   else if is SSTART && ((ch =? 62) || (ch =? 60)) then Cont SOPERATORSTART w p1
-  else if is_space ch && negb (is SSTRING_D_ESCAPE || is SSTRING_S_ESCAPE) then (if is SSTART || is SWHITESPACE then Cont SWHITESPACE w p1 else Stop st buf p)
-  else if is_digit_r ch && (is SNUMBER || is SSTART) then Cont SNUMBER w p1
-  else if is_letter_r ch && is SSTART then Cont SIDENTIFIER w p1
-  else if (is_digit_r ch || is_letter_r ch) && is SIDENTIFIER then Cont SIDENTIFIER w p1
-  else if (ch =? 34) && is SSTART then Cont SSTRING_DOUBLE buf p1
+  else if negb (is SSTRING_D_ESCAPE || is SSTRING_S_ESCAPE) && is_space ch then (if is SSTART || is SWHITESPACE then Cont SWHITESPACE w p1 else Stop st buf p)
+  else if (is SNUMBER || is SSTART) && is_digit_r ch then Cont SNUMBER w p1
+  else if is SSTART && is_letter_r ch then Cont SIDENTIFIER w p1
+  else if is SIDENTIFIER && (is_digit_r ch || is_letter_r ch) then Cont SIDENTIFIER w p1
+  else if is SSTART && (ch =? 34) then Cont SSTRING_DOUBLE buf p1
   else if is SSTRING_D_ESCAPE || is SSTRING_S_ESCAPE then
     let back := if is SSTRING_D_ESCAPE then SSTRING_DOUBLE else SSTRING_SINGLE in
     if ch =? 120 then
@@ -142,7 +144,7 @@ Definition lex_step (st : lstate) (buf : bytes) (p : nat) : outcome :=
        then let '(a, p2) := rd p1 in let '(b, p3) := rd p2 in Cont back (buf ++ encode_rune (hexval a * 16 + hexval b)) p3
        else Cont back (buf ++ [120]) p1)
     else Cont back (buf ++ encode_rune (escaped_rune ch)) p1
-  else if (ch =? 39) && is SSTART then Cont SSTRING_SINGLE buf p1
+  else if is SSTART && (ch =? 39) then Cont SSTRING_SINGLE buf p1
   else if is SSTART && (ch =? 64) then
     let '(n, p2) := rd p1 in
     if negb (n =? 47) then Stop SERROR buf p1            (* unread_last: back to after '@' *)
